@@ -251,4 +251,40 @@ def gen_postings(items):
             D('BLOCKPOSTINGS_RESET_MISSING', len(bmissing), f'{bf}::reset: missing {bmissing}')])
     items.append(reset_covers_new)
 
+    def json_positions_scope():
+        # the per-path position map is cleared for every (document, JSON field): C07_json_positions_per_path
+        f = 'src/indexer/segment_writer.rs'
+        body = re.sub(r'\s+', '', _fn_body2(f, 'index_document'))
+        i = body.find('FieldType::JsonObject(')
+        if i < 0:
+            raise Fail(f'{f}: JsonObject arm of index_document not found')
+        j = body.find('FieldType::IpAddr(', i)
+        arm = body[i:j if j > 0 else len(body)]
+        k = arm.find('self.json_positions_per_path.clear();')
+        l = arm.find('forjson_valueinvalues{')
+        if k < 0 or l < 0 or k > l:
+            raise Fail(f'{f}: json_positions_per_path is no longer cleared at the start of the JsonObject arm (per document and field)')
+        if '&mutself.json_positions_per_path' not in arm[l:]:
+            raise Fail(f'{f}: index_json_value no longer receives json_positions_per_path')
+        ju = re.sub(r'\s+', '', _fn_body2('src/core/json_utils.rs', 'index_json_value'))
+        if 'letindexing_position=positions_per_path.get_position_from_id(unordered_id);postings_writer.index_text(' not in ju:
+            raise Fail('src/core/json_utils.rs: text leaves are no longer indexed against the per-path IndexingPosition')
+        return D('JSON_POSITIONS_CLEARED_PER_FIELD', 1, f'{f}: clear() at the start of the JsonObject arm; json_utils.rs: index_text(.., positions_per_path[path id])')
+    items.append(json_positions_scope)
+
+    def index_text_counts():
+        # num_tokens / total_num_tokens count the subscribed tokens only (tokens > MAX_TOKEN_LEN return early)
+        f = 'src/postings/postings_writer.rs'
+        body = re.sub(r'\s+', '', fn_body(f, 'index_text'))
+        a = body.find('iftoken.text.len()>MAX_TOKEN_LEN{')
+        b = body.find('self.subscribe(doc_id,start_position,term_buffer,ctx);num_tokens+=1;')
+        if a < 0 or b < 0 or b < a or body.count('num_tokens+=1;') != 1:
+            raise Fail(f'{f}: index_text no longer counts exactly the subscribed tokens')
+        if 'indexing_position.end_position=end_position+POSITION_GAP;indexing_position.num_tokens+=num_tokens;' not in body:
+            raise Fail(f'{f}: index_text: end_position / num_tokens update changed')
+        if 'letstart_position=indexing_position.end_position+token.positionasu32;end_position=end_position.max(start_position+token.position_lengthasu32);' not in body:
+            raise Fail(f'{f}: index_text: position arithmetic changed')
+        return D('INDEX_TEXT_SHAPE_OK', 1, f'{f}::index_text: start = end_position + token.position; end = max(.., start + position_length); + POSITION_GAP; only subscribed tokens counted')
+    items.append(index_text_counts)
+
     items.append(lambda: 'end Postings')
